@@ -23,7 +23,7 @@ MUTATORS = {
     "setdefault", "popitem", "__setitem__", "__delitem__", "difference_update", "intersection_update", "symmetric_difference_update",
 }
 COPIERS = {"list", "sorted", "reversed", "filter", "tuple", "set", "frozenset", "iter", "enumerate", "zip", "map", "dict"}
-FRESH_CALLS = {"deepcopy", "len", "str", "int", "float", "bool", "range", "sum", "min", "max", "any", "all", "repr", "hash", "join", "format"}
+FRESH_CALLS = {"groupby", "deepcopy", "len", "str", "int", "float", "bool", "range", "sum", "min", "max", "any", "all", "repr", "hash", "join", "format"}
 STR_METHODS = set(dir(str)) | set(dir(int)) | set(dir(float))
 RANK = {None: 0, "S": 1, "R": 2}
 
